@@ -227,6 +227,8 @@ public:
   inline app_pointer& operator=(app_pointer&& other)
   {
     if (this != &other) {
+      // release the app pointer currently owned (if any)
+      unregister();
       move_obj(std::forward<app_pointer>(other));
     }
     return *this;
